@@ -425,15 +425,14 @@ fn row_to_json(row: Row) -> JsonValue {
 
 fn write_query_contains_write(cypher: &str) -> ApiResult<bool> {
     let trimmed = cypher.trim_start();
-    if trimmed
-        .get(..7)
-        .is_some_and(|head| head.eq_ignore_ascii_case("EXPLAIN"))
-    {
-        return Ok(false);
-    }
-    let parsed =
-        nervusdb_query::parse(cypher).map_err(|e| ApiError::from_query_message(&e.to_string()))?;
-    Ok(query_contains_write(&parsed))
+    // EXPLAIN only describes the plan: never a write, but the statement it explains must parse.
+    let (explain, statement) = match (trimmed.get(..7), trimmed.get(7..)) {
+        (Some(head), Some(tail)) if head.eq_ignore_ascii_case("EXPLAIN") => (true, tail),
+        _ => (false, cypher),
+    };
+    // A statement the parser refuses is a syntax error, whatever the wording of its message.
+    let parsed = nervusdb_query::parse(statement).map_err(|e| ApiError::syntax(e.to_string()))?;
+    Ok(!explain && query_contains_write(&parsed))
 }
 
 fn query_contains_write(query: &ast::Query) -> bool {
